@@ -176,8 +176,13 @@ class BundleFlattener(ElabPass):
         # Flatten it
         flat = self.flatten_bundle_inst(bundle_inst, path=Path([]))
 
+        # The implicit bundle behind a `NoConn` on a port of an `InstanceArray`: each element of the array gets
+        # its own piece of every unconnected net. Make them wide enough for `ArrayFlattener` to hand one slice to each.
+        copies = getattr(bundle_inst, "_unconnected_copies", 1)
+
         # Add each flattened Signal. Note flattened Signals are modified in-place.
         for pathstr, sig in flat.signals.items():
+            sig.width = sig.width * copies
             # Rename the signal, prepending the bundle-instance's name
             sig.name = self.flatname(
                 segments=[bundle_inst.name, pathstr.to_name()],
